@@ -447,25 +447,25 @@ func ShareSpecOf(spec *RunSpec) *ShareSpec {
 }
 
 func acquireRaceSlot(bin string) func() {
-	var files []*os.File
-	for i := 0; i < 2; i++ {
-		f, err := os.OpenFile(fmt.Sprintf("%s.slot%d", bin, i), os.O_CREATE|os.O_RDWR, 0644)
-		if err != nil {
-			return func() {}
-		}
-		files = append(files, f)
+	// blocking flock on one of two slot files (chosen by pid): the kernel
+	// queues waiters, so nobody starves; the time spent waiting does not
+	// count towards the per-run watchdog.
+	f, err := os.OpenFile(fmt.Sprintf("%s.slot%d", bin, os.Getpid()%2), os.O_CREATE|os.O_RDWR, 0644)
+	if err != nil {
+		return func() {}
 	}
-	for {
-		for _, f := range files {
-			if syscall.Flock(int(f.Fd()), syscall.LOCK_EX|syscall.LOCK_NB) == nil {
-				return func() {
-					syscall.Flock(int(f.Fd()), syscall.LOCK_UN)
-					for _, g := range files {
-						g.Close()
-					}
-				}
-			}
-		}
+	for syscall.Flock(int(f.Fd()), syscall.LOCK_EX) != nil {
 		time.Sleep(50 * time.Millisecond)
 	}
+	if ResetRunClock != nil {
+		ResetRunClock()
+	}
+	return func() {
+		syscall.Flock(int(f.Fd()), syscall.LOCK_UN)
+		f.Close()
+	}
 }
+
+// ResetRunClock is set by the worker: it restarts the per-run watchdog
+// clock (used after waiting for a race-build slot).
+var ResetRunClock func()
